@@ -251,7 +251,7 @@ class DebugRender(TypeRender):
         # twin type with #[derive(Debug)], same names, in its own module
         c = self.cfg
         saved = self.type_attr
-        item = self.item()
+        item = self.item_plain()
         plain = item[item.index(' struct ' if c['kind'] == 'struct' else ' enum '):]
         # strip educe attributes of the item head; field/variant attrs are absent because there are no params
         arms = ' '.join('%d => %s,' % (v, self.ctor(v, var)) for v, var in enumerate(c['variants'], 1))
@@ -1361,7 +1361,7 @@ def stress_inputs():
 
 # ---------------------------------------------------------------- C11
 class GenericRender(TypeRender):
-    GT = {'T': 'T', 'U': 'U', 'RefT': "&'b T", 'ArrT': '[T; 2]', 'Arr0T': '[T; 0]', 'WrapT': 'Wrap<T>', 'PhantomT': '::core::marker::PhantomData<T>', 'PairTU': '(T, U)', 'conc': 'u8',
+    GT = {'T': 'T', 'U': 'U', 'RefT': "&'b T", 'ArrT': '[T; 2]', 'Arr0T': '[T; 0]', 'ArrN': '[u8; N]', 'WrapT': 'Wrap<T>', 'PhantomT': '::core::marker::PhantomData<T>', 'PairTU': '(T, U)', 'conc': 'u8',
           'PhantomAll': '::core::marker::PhantomData<(T, U)>', 'A': 'TA', 'B': 'TB'}
 
     def __init__(self, idx, cfg, prop, **kw):
@@ -1432,12 +1432,12 @@ def c11(ctx):
 
 
 # ---------------------------------------------------------------- C12
-GEN_DECL = {'TU': '<T, U>', 'rich': "<'a, const N: usize, T: Bnd = u8>",
+GEN_DECL = {'TU': '<T, U>', 'rich': "<'a, const N: usize, T: Bnd = u8>", 'lc': "<'a, const N: usize>",
             'wide': "<'a, 'b: 'a, T: ?Sized + Bnd, const N: usize = 2, U: Bnd = u8>"}
-GEN_WHERE = {'TU': '', 'rich': 'T: Usr', 'wide': "&'b T: Usr, U: Usr, [u8; N]: Sized"}
-GEN_IMPL = {'TU': ('impl<T, U>', '<T, U>'), 'rich': ("impl<'a, const N: usize, T: Bnd>", "<'a, N, T>"),
+GEN_WHERE = {'TU': '', 'rich': 'T: Usr', 'lc': '', 'wide': "&'b T: Usr, U: Usr, [u8; N]: Sized"}
+GEN_IMPL = {'TU': ('impl<T, U>', '<T, U>'), 'rich': ("impl<'a, const N: usize, T: Bnd>", "<'a, N, T>"), 'lc': ("impl<'a, const N: usize>", "<'a, N>"),
             'wide': ("impl<'a, 'b: 'a, T: ?Sized + Bnd, const N: usize, U: Bnd>", "<'a, 'b, T, N, U>")}
-GEN_PHANTOM = {'TU': 'PhantomData<(T, U)>', 'rich': "PhantomData<&'a [T; N]>", 'wide': "PhantomData<(&'a u8, &'b T, [U; N])>"}
+GEN_PHANTOM = {'TU': 'PhantomData<(T, U)>', 'rich': "PhantomData<&'a [T; N]>", 'lc': "PhantomData<&'a [u8; N]>", 'wide': "PhantomData<(&'a u8, &'b T, [U; N])>"}
 
 
 class BoundsRender(GenericRender):
@@ -1624,6 +1624,8 @@ def c01(ctx):
         modes = [v for k, v in c['opts']['bounds'].items() if k != '-']
         if 'all' in modes and 'Default' in c['opts']['traits'] and any(f['ty'] == 'RefT' for var in c['variants'] for f in var['fields']):
             return False      # `T: Default` does not give `&'b T: Default`: bound(*) is the user's own insufficient bound here
+        if 'all' in modes and c['opts']['gen'] == 'lc' and any(f['ty'] == 'ArrN' for var in c['variants'] for f in var['fields']):
+            return False      # no type parameter to bound: bound(*) says nothing about `[u8; N]` (the user's own insufficient bound)
         if not any(m in ('custom', 'disabled') for m in modes):
             return True
         return all(f['ty'] in ('conc', 'PhantomT', 'PhantomAll', 'A', 'B') for var in c['variants'] for f in var['fields'])
@@ -1876,8 +1878,12 @@ def c18(ctx):
                     out.append({'op': 'refuse', 'features': sub, 'input': neg_text[r['id']], 'outcome': r['outcome']})
                 elif str(r['id']).startswith('dis:'):
                     text = dis_text.get(r['id']) or '#[educe(%s)] struct T { a: u8 }' % r['id'][4:]
+                    err = r.get('err') or ''
+                    listed = [l.strip() for l in err.split('available traits:', 1)[1].split('\n') if l.strip()] if 'available traits:' in err else None
                     out.append({'op': 'disabled', 'features': sub, 'input': text, 'outcome': r['outcome'],
-                                'unsupported': 'unsupported trait' in (r.get('err') or '')})
+                                'unsupported': 'unsupported trait' in err,
+                                # the diagnostic offers the traits that are available: exactly the enabled ones
+                                'listed': listed is None or sorted(listed) == sorted(sub), 'listed_names': listed or []})
                 else:
                     out.append({'op': 'expand', 'features': sub, 'input': r['id'], 'outcome': r['outcome'],
                                 'out': xpipe.digest(r['out']) if r.get('out') is not None else '', 'ref': xpipe.digest(ref[r['id']]['out'] or '')})
@@ -1957,7 +1963,14 @@ def disabled_site_item(en, dis, site, enabled):
 RUST_KEYWORDS = set('as break const continue crate else enum extern false fn for if impl in let loop match mod move mut pub ref return self Self static struct super trait true '
                     'type unsafe use where while async await dyn abstract become box do final macro override priv typeof unsized virtual yield try union '
                     'u8 u16 u32 u64 u128 usize i8 i16 i32 i64 i128 isize bool char str f32 f64'.split())
-SHADOW_ENV = ('#[allow(dead_code, non_camel_case_types, non_snake_case, unused)] pub mod shadow { pub struct Option; pub struct Result; pub struct Ordering; pub struct Box; '
+SHADOW_MACROS = ('#[allow(unused_macros)] macro_rules! stringify { ($($t:tt)*) => { compile_error!("user macro `stringify` reached from generated code") } } '
+                 '#[allow(unused_macros)] macro_rules! unreachable { ($($t:tt)*) => { compile_error!("user macro `unreachable` reached from generated code") } } '
+                 '#[allow(unused_macros)] macro_rules! write { ($($t:tt)*) => { compile_error!("user macro `write` reached from generated code") } } '
+                 '#[allow(unused_macros)] macro_rules! format_args { ($($t:tt)*) => { compile_error!("user macro `format_args` reached from generated code") } } '
+                 '#[allow(unused_macros)] macro_rules! matches { ($($t:tt)*) => { compile_error!("user macro `matches` reached from generated code") } } '
+                 '#[allow(unused_macros)] macro_rules! panic { ($($t:tt)*) => { compile_error!("user macro `panic` reached from generated code") } } '
+                 '#[allow(unused_macros)] macro_rules! concat { ($($t:tt)*) => { compile_error!("user macro `concat` reached from generated code") } } ')
+SHADOW_ENV = (SHADOW_MACROS + '#[allow(dead_code, non_camel_case_types, non_snake_case, unused)] pub mod shadow { pub struct Option; pub struct Result; pub struct Ordering; pub struct Box; '
               'pub struct Vec; pub struct String; pub struct Formatter; pub struct PhantomData; pub enum Tri { Some, None, Ok, Err, Less, Equal, Greater } pub use self::Tri::*; '
               'pub trait Clone {} pub trait Copy {} pub trait Default {} pub trait Debug {} pub trait PartialEq {} pub trait Eq {} pub trait PartialOrd {} pub trait Ord {} '
               'pub trait Hash {} pub trait Hasher {} pub trait Into {} pub trait From {} pub trait Deref {} pub trait DerefMut {} pub trait Sized_ {} '
@@ -2148,10 +2161,13 @@ class HostileNamesRender(TypeRender):
         super().__init__(idx, cfg, prop, **kw)
         self.pool = self.FORCED.get(idx) or self.POOLS[idx % len(self.POOLS)]
 
-    def item(self, derive=True):
+    def item_plain(self, derive=True):
         # the style lint on the user's own field names is the user's business; the attribute sits on the type only and
         # does not reach the generated impls
-        return '#[allow(non_snake_case)] ' + super().item(derive)
+        t = super().item_plain(derive)
+        if t.startswith('#[derive(Educe)] '):
+            return '#[derive(Educe)] #[allow(non_snake_case)] ' + t[len('#[derive(Educe)] '):]
+        return '#[allow(non_snake_case)] ' + t
 
 
 def hostile_pools(templates):
@@ -2350,9 +2366,14 @@ def c19(ctx):
             if lvl not in ('error', 'warning'):
                 continue
             hit = None
-            for sp in msg.get('spans', []):
-                if sp.get('line_start') in line_of:
-                    hit = line_of[sp['line_start']]
+            for sp0 in msg.get('spans', []):
+                # (the head lines hold the shadowing items: a diagnostic inside a user macro is attributed to the
+                #  derive it was expanded from)
+                for sp in rpipe.span_chain(sp0):
+                    if sp.get('line_start') in line_of:
+                        hit = line_of[sp['line_start']]
+                        break
+                if hit is not None:
                     break
             if hit is None:
                 if lvl == 'error' and not msg.get('message', '').startswith('aborting due to'):
